@@ -6,6 +6,8 @@ import (
 	"strings"
 
 	"github.com/Oneledger/protocol/action"
+	"github.com/Oneledger/protocol/data/keys"
+	"github.com/Oneledger/protocol/serialize"
 
 	"olsim/core"
 )
@@ -31,6 +33,12 @@ func (Impersonator) Gen(c *Ctx) []Tx {
 			lo = len(c.S.Sent) - 40
 		}
 		src := c.S.Sent[lo+c.Rng.Intn(len(c.S.Sent)-lo)]
+		if c.Rng.Intn(3) == 0 {
+			if t := forge(c, src); t != nil {
+				out = append(out, *t)
+			}
+			continue
+		}
 		if t := impersonate(c, src); t != nil {
 			out = append(out, *t)
 		}
@@ -123,6 +131,54 @@ func impersonate(c *Ctx, src Tx) *Tx {
 		}
 	}
 	return &Tx{Bytes: core.SignRaw(raw, signers...), Kind: tx.Type.String() + "/impersonate:own=" + label}
+}
+
+// forge: the victim's transaction content (payload untouched: the victim stays source/owner/funder ...)
+// under a fresh memo, "signed" with the victim's real PUBLIC key in the signer field and something that
+// is not the victim's signature over this content in the signature field.
+func forge(c *Ctx, src Tx) *Tx {
+	tx := core.DecodeTx(src.Bytes)
+	if tx == nil || tx.Type == action.OLVM || len(tx.Signatures) == 0 || len(c.W.Users) == 0 {
+		return nil
+	}
+	raw := action.RawTx{Type: tx.Type, Data: tx.Data, Fee: tx.Fee, Memo: memo(c)}
+	attacker := c.W.Users[c.Rng.Intn(len(c.W.Users))]
+	variants := []string{"garbage-sig", "stale-sig", "empty-sig", "zero-sig", "attacker-sig-victim-key", "btcec-alias", "one-byte-off"}
+	v := variants[c.Rng.Intn(len(variants))]
+	sigs := make([]action.Signature, 0, len(tx.Signatures))
+	for _, o := range tx.Signatures {
+		sg := action.Signature{Signer: o.Signer}
+		switch v {
+		case "garbage-sig":
+			sg.Signed = make([]byte, 64)
+			c.Rng.Read(sg.Signed)
+		case "stale-sig":
+			sg.Signed = append([]byte{}, o.Signed...) // the victim's signature over the OLD content
+		case "empty-sig":
+			sg.Signed = []byte{}
+		case "zero-sig":
+			sg.Signed = make([]byte, 64)
+		case "attacker-sig-victim-key":
+			sg.Signed = attacker.Sign(raw.RawBytes())
+		case "btcec-alias":
+			// the same public key bytes under the bitcoin key type (whose verifier is a stub)
+			sg.Signer = keys.PublicKey{KeyType: keys.BTCECSECP, Data: append([]byte{}, o.Signer.Data...)}
+			sg.Signed = make([]byte, 64)
+			c.Rng.Read(sg.Signed)
+		case "one-byte-off":
+			sg.Signed = append([]byte{}, o.Signed...)
+			if len(sg.Signed) > 0 {
+				sg.Signed[c.Rng.Intn(len(sg.Signed))] ^= 1 << uint(c.Rng.Intn(8))
+			}
+		}
+		sigs = append(sigs, sg)
+	}
+	stx := &action.SignedTx{RawTx: raw, Signatures: sigs}
+	b, err := serialize.GetSerializer(serialize.NETWORK).Serialize(stx)
+	if err != nil {
+		return nil
+	}
+	return &Tx{Bytes: b, Kind: tx.Type.String() + "/forge:" + v}
 }
 
 func init() { Register(Impersonator{}) }
